@@ -64,7 +64,8 @@ def showVpr (v : Vpr) (withChanges : Bool) : String :=
   let c := if withChanges then
       " c=[" ++ joinC (sortStr (v.changes.map fun e => s!"{hex e.1}:{hex e.2.1}:{e.2.2}")) ++ "]"
     else ""
-  "{" ++ s!"t={v.total} p=[{joinC ps}] b=[{b}]{c}" ++ "}"
+  let m := joinC ((membersOf v).map fun e => s!"{hex (e.id.take 4)}:{e.power}")
+  "{" ++ s!"t={v.total} p=[{joinC ps}] b=[{b}] m=[{m}]{c}" ++ "}"
 
 def showNames (m : AMap Bytes NameRec) : String :=
   joinC (sortStr (m.map fun e => s!"{hex e.1}:{hex e.2.owner}:{hex e.2.dest}"))
@@ -84,7 +85,7 @@ def showState (s : St) : String :=
 def showRes : Res → String
   | .ok => "ok" | .insufficient => "insufficient" | .lessTime => "lesstime" | .tooSmall => "toosmall"
   | .mustStakeVote => "muststake-vote" | .mustStakeUnstake => "muststake-unstake" | .exceed => "exceed"
-  | .notSupported => "notsupported" | .daoBadId => "dao-badid" | .daoTooMany => "dao-toomany"
+  | .notSupported => "notsupported" | .daoBadId => "dao-badid" | .daoTooFew => "dao-toofew" | .daoTooMany => "dao-toomany"
   | .daoBadNumber => "dao-badnumber" | .daoBadRange => "dao-badrange"
   | .occupied => "occupied" | .ownerMismatch => "owner-mismatch" | .notCreated => "not-created" | .ownerSet => "owner-set"
   | .panic => "panic" | .misaligned => "unmodelled-misaligned-candidate"
